@@ -12,6 +12,22 @@ fn main() {
     }
     let vals: Vec<u64> = args[2..].iter().map(|s| s.parse::<u64>().expect("u64 value")).collect();
     let name = args[1].clone();
+    // report and leave at once: unwinding through a half-finished harness state is pointless (and can block)
+    std::panic::set_hook(Box::new(|info| {
+        let msg = if let Some(s) = info.payload().downcast_ref::<&str>() {
+            s.to_string()
+        } else if let Some(s) = info.payload().downcast_ref::<String>() {
+            s.clone()
+        } else {
+            "panic".to_string()
+        };
+        if msg.contains("replay: assumption not met") {
+            eprintln!("REPLAY-UNDECIDED: {}", msg);
+            std::process::exit(2);
+        }
+        eprintln!("REPLAY-VIOLATION: {}", msg);
+        std::process::exit(101);
+    }));
     let r = std::panic::catch_unwind(move || multiqueue2::verif_hooks::replay(&name, vals));
     match r {
         Ok(true) => println!("replay of {} ran through without violating an obligation", args[1]),
